@@ -21,6 +21,7 @@ ACT = {
     "endmarker_raiser": "import time\ndef cb(x):\n    if x == 'END':\n        raise ValueError('callback fails on its endmarker')\nc = channel.gateway.newchannel()\nc.setcallback(cb, endmarker='END')\nchannel.send(c)\ntime.sleep(1000)",
     "callback_sysexit": "def cb(x):\n    raise SystemExit(3)\nc = channel.gateway.newchannel()\nc.setcallback(cb)\nchannel.send(c)\nchannel.receive()",
     "nondaemon_thread": "import threading, time\nthreading.Thread(target=time.sleep, args=(1000,)).start()\nchannel.send('started')",
+    "inbound_transfer": "while 1:\n    channel.receive()",     # the initiator dies in the middle of a large message to this worker
     "sender": "n = 0\nwhile True:\n    channel.send(n)\n    n += 1",
     "sender_swallow": "n = 0\nwhile True:\n    try:\n        channel.send(n)\n        n += 1\n    except OSError:\n        break\n    except KeyboardInterrupt:\n        pass",
 }
@@ -46,6 +47,15 @@ for gw in gws:
             chans.append(sub)
         if activity == "endmarker_raiser":
             chans.append(ch.receive(10))
+        if activity == "inbound_transfer":
+            import threading
+
+            def flood(ch=ch):
+                data = b"x" * (8 << 20)
+                while 1:
+                    ch.send(data)
+
+            threading.Thread(target=flood, daemon=True).start()
         if activity == "callback_sysexit":
             sub = ch.receive(10)
             sub.send(1)              # the worker's callback raises SystemExit in its receiver thread
@@ -59,8 +69,13 @@ os.rename(out + ".tmp", out)
 if how == "exit":
     os._exit(0)          # the initiating process just goes away
 if how == "close":
+    import threading
+
     for gw in gws:
         gw._io.close_write()
-        gw._io.close_read()
+    for gw in gws:
+        # closing the read side waits for this process's own receiver thread, which sits in a read until the worker is gone:
+        # not in line, or the next gateway's connection would stay open that long
+        threading.Thread(target=gw._io.close_read, daemon=True).start()
     time.sleep(1000)
 time.sleep(1000)         # how == "kill": wait to be SIGKILLed
